@@ -137,7 +137,7 @@ func hasEmptyChild(v e5.Value) bool {
 }
 
 func TestC15Renderers(t *testing.T) {
-	ev.Rule("item trees of every type (empty/one/many elements, nesting <= 12, EmptyItem children included, extreme numeric values). Oracle: sml.Encode(item) == item.ToSML() byte for byte; for trees of numeric/boolean/binary leaves the rendered text is read back (a) leaf by leaf with an independent strconv-based reader and (b) by sml.Parse, and must give the reference values. Non-trivial: a list with a non-list child, or an extreme numeric leaf; distinct by reference encoding.")
+	ev.Rule("item trees of every type (empty/one/many elements, nesting <= 12, EmptyItem children included, extreme numeric values). Oracle: sml.Encode(item) == item.ToSML() byte for byte, for the constructed tree and for the tree the wire decoder produces from its encoding; for trees of numeric/boolean/binary leaves the rendered text is read back (a) leaf by leaf with an independent strconv-based reader and (b) by sml.Parse, and must give the reference values. Non-trivial: a list with a non-list child, or an extreme numeric leaf; distinct by reference encoding.")
 	vt.Check(t, 20000, 500000, func(rt *rapid.T) {
 		v := gen.Value(rt, gen.Opts{MaxDepth: 12, Budget: 16 << 10, EmptyChild: true, NoBigCounts: true})
 		it := gen.Build(rt, v, nil)
@@ -202,6 +202,11 @@ func TestC15Renderers(t *testing.T) {
 		if !hasEmptyChild(v) && v.FC != e5.Empty {
 			// a fresh, never rendered object of the same value renders the same text
 			if fresh, err := secs2.Decode(e5.Encode(v)); err == nil {
+				// ... and both renderers agree on the wire-decoded object as they do on the constructed one
+				if fa, fb := sml.Encode(fresh), fresh.ToSML(); fa != fb {
+					rt.Fatalf("C15 violated for the wire-decoded %s: sml.Encode != Item.ToSML\n encoder: %q\n ToSML:   %q", v, trunc200(fa), trunc200(fb))
+				}
+				classes = append(classes, "provenance:decoded")
 				if fb := fresh.ToSML(); fb != b && !extremeNumeric(v) {
 					rt.Fatalf("C15 violated for %s: the tree renders differently from a fresh object of the same value (rendering history %s)\n tree:  %q\n fresh: %q", v, order, trunc200(b), trunc200(fb))
 				}
